@@ -208,8 +208,11 @@ ROUTINES = ['fixed', 'bootstrap', 'bootstrap', 'crossval', 'bcv', 'bcv', 'dual',
 
 def generate(rng, tier):
     if tier == 'search':
-        for _ in range(100000):
-            yield gen_one(rng, rng.choice(ROUTINES), small=True)
+        from engines import C04_session
+        sess = C04_session.generate(rng, 'search')
+        for k in range(100000):
+            # every third search case is a reuse session (state that survives a call)
+            yield next(sess) if k % 3 == 2 else gen_one(rng, rng.choice(ROUTINES), small=True)
         return
     n = {'quick': 36, 'thorough': 400}.get(tier, 36)
     forced = {('bootstrap', 0): 'few', ('crossval', 1): 'reject', ('crossval', 2): 'nonrandom',
@@ -225,6 +228,8 @@ def generate(rng, tier):
     c['vecs'] = c['vecs'][:1]
     c['rdm_groups'] = None if c['rdm_groups'] is None else c['rdm_groups'][:1]
     yield c
+    from engines import C04_session
+    yield from C04_session.generate(rng, tier)          # round 4: reuse sessions
     if tier == 'thorough':
         yield from exhaustive_small(rng)
 
@@ -245,7 +250,10 @@ def exhaustive_small(rng):
 
 # ------------------------------------------------------------------ features
 
-def features(case, impl):
+def features(case, impl, obs=None):
+    if case.get('session'):
+        from engines import C04_session
+        return C04_session.features(case, impl)
     ctx = L.Ctx(case)
     br = ['routine:' + case['routine']]
     if 'bt' in case:
@@ -312,7 +320,7 @@ def features(case, impl):
             usable = sum(1 for row in impl['evals'] if next(_flat(row), None) is not None)
             if usable < 2:
                 br.append('cov:undefined')
-        o = L.observe(case)
+        o = obs if obs is not None else L.observe(case)
         kinds = {f_['opt']['kind'] for f_ in o.get('fits', []) if f_.get('opt')}
         for k_ in kinds:
             br.append('fitcheck:' + k_)
@@ -338,13 +346,19 @@ def _flat(x):
 
 # ------------------------------------------------------------------ shrinking
 
-_SHRUNK = [0]
+_SHRUNK = [0, 0]
 
 
 def shrink(case, still_fails):
     """fewer samples, fewer models, fewer RDMs, no grouping, simpler method
     (only the first few failing cases of a run are shrunk: a broken tree fails on many)"""
     cur = copy.deepcopy(case)
+    if case.get('session'):
+        _SHRUNK[1] += 1
+        if _SHRUNK[1] > 3:
+            return cur
+        from engines import C04_session
+        return C04_session.shrink(case, still_fails)
     _SHRUNK[0] += 1
     if _SHRUNK[0] > 4:
         return cur
